@@ -35,6 +35,19 @@ let handle = function
       let hs = List.filter (function EHeader _ -> true | _ -> false) evs
       and rs = List.filter (function EHeader _ -> false | _ -> true) evs in
       String.concat "" (List.map event_s (hs @ rs)) ^ "|eof"
+  | "emit" :: sep :: crlf :: isbufio :: layers :: pre :: rest ->
+      (* rows printed to one destination: "/" starts a row; layers = sizes of the stacked
+         bufio.Writers, outermost first ("-" = none); pre = what the sink held before *)
+      let rec rows acc cur = function
+        | [] -> List.rev (match cur with None -> acc | Some r -> List.rev r :: acc)
+        | "/" :: t -> rows (match cur with None -> acc | Some r -> List.rev r :: acc) (Some []) t
+        | f :: t -> (match cur with None -> failwith "emit: field before /" | Some r -> rows acc (Some (bytes_of_hex f :: r)) t) in
+      let sizes = if layers = "-" then [] else List.map z_of_string (String.split_on_char ',' layers) in
+      let d = List.fold_right (fun sz under -> DBuf (sz, [], under)) sizes (DRaw (bytes_of_hex pre)) in
+      (match emit_rows (z_of_string sep) (b2 crlf) { o_bufio = b2 isbufio; o_d = d } (rows [] None rest) with
+       | Ok b -> "ok " ^ hex_of_bytes b
+       | Unmod -> "unmod"
+       | _ -> "driver-error emit")
   | "write" :: sep :: crlf :: fields ->
       "ok " ^ hex_of_bytes (write_record (z_of_string sep) (b2 crlf) (List.map bytes_of_hex fields))
   | "join" :: sep :: crlf :: fields ->
